@@ -9,6 +9,7 @@ CONSTANTS
   ChunkPts = {1, 2, 3}
   ResetChoices <- RepairedOnly
   TamperTags <- AllTags
+  CacheChoices = {"none"}
   Concurrent = TRUE
   RecordHist = TRUE
 INVARIANT Emit
